@@ -276,19 +276,20 @@ def _ran_after_run_end(execlog, tick):
 
 
 def _interrupted_restart_resumed(execlog, tick):
-    """A Restart request executed in `tick` (or the tick before) that (a) had already begun executing at an earlier
-    tick, (b) has never itself ended or started a run (every earlier execution of it left the run started: it got no
-    further than its first phase), and (c) a Stop request ended the run in between. I.e. a Restart that an accepted Stop
-    interrupted is carried into the next CommandManager and resumed against a later run. Returns the tick at which the
-    request first executed, or None. (A Restart that completed - it ended and started a run - never matches.)"""
+    """A Restart request executed in `tick` (or the tick before) that (a) had already executed at an earlier tick,
+    (b) has never itself ended or started a run (none of its earlier executions changed Engine._runstate_started: it got
+    no further than its first phase, or failed on the stopped engine), and (c) a Stop request ended the run at or after
+    the tick of its first execution. I.e. a Restart that an accepted Stop interrupted / overtook is carried from
+    CommandManager to CommandManager and resumed against a later run. Returns the tick at which the request first
+    executed, or None. (A Restart that completed - it ended and started a run - never matches.)"""
     for (k, name, _src, _before, _after, rq) in execlog:
         if name != "Restart" or k not in (tick, tick - 1):
             continue
         earlier = [e for e in execlog if e[5] is rq and e[0] < min(k, tick)]
-        if not earlier or not all(e[3] and e[4] for e in earlier):
+        if not earlier or not all(e[3] == e[4] for e in earlier):
             continue
         t1 = earlier[0][0]
-        if any(e[1] == "Stop" and e[3] and not e[4] and t1 < e[0] < k for e in execlog):
+        if any(e[1] == "Stop" and e[3] and not e[4] and t1 <= e[0] < k for e in execlog):
             return t1
     return None
 
@@ -541,9 +542,10 @@ def check_case(case, res: Result, kind: str = "?"):
                         t1 = _interrupted_restart_resumed(execlog, rig.k)
                         if t1 is not None and all(k in _LOCAL_KEYS for (k, _m) in viol):
                             viol[:] = [("C06.restart_interrupted_by_stop_resumes_in_next_run",
-                                        m + f" [the Restart request acting here began executing at tick {t1}, was "
-                                        "interrupted by a Stop that ended that run before the Restart had stopped it "
-                                        "itself, and was handed to the next CommandManager]") for (_k, m) in viol]
+                                        m + f" [the Restart request acting here first executed at tick {t1}, was "
+                                        "interrupted / overtaken by a Stop that ended that run before the Restart had "
+                                        "stopped it itself, and was handed on to the later CommandManagers]")
+                                       for (_k, m) in viol]
                     break
         if aborted:
             res.count("cases_aborted")
